@@ -218,6 +218,11 @@ def make_case(seed, i, force_end=None):
             mp = "/w/%s/_package.yml" % imp.dirname
             if mp in cur:
                 bad_url = r.choice(["ftp://example.org/pkg", "https://example.invalid/org/repo", "file://", "git@example.org:org/repo.git"])
+                own = sorted(q for q in cur if q.startswith("/w/%s/" % imp.dirname) and q.count("/") == 3 and q.endswith(".yml") and not q.endswith("/_package.yml"))
+                if own and r.fork("belowfile").chance(0.35):
+                    # a local path that leads through a regular file (a slip while typing `../other/model`): the directory can
+                    # neither be read nor watched, and not because it does not exist
+                    bad_url = "./%s/sub" % r.choice(own).rsplit("/", 1)[1]
                 good = cur[mp]
                 if "imports:\n" in good:
                     bad = good.replace("imports:\n", "imports:\n  - %s\n" % bad_url, 1)
